@@ -74,7 +74,7 @@ func (r *ReduceMax) Apply(inputs []tensor.Tensor) ([]tensor.Tensor, error) {
 		seen[axes[i]] = true
 	}
 
-	out, err := input.Max(axes...)
+	out, err := reduceAlongAxes(input, axes, func(t *tensor.Dense) (*tensor.Dense, error) { return t.Max(1) })
 	if err != nil {
 		return nil, err
 	}
@@ -127,4 +127,71 @@ func (r *ReduceMax) GetInputTypeConstraints() [][]tensor.Dtype {
 // String implements the stringer interface, and can be used to format errors or messages.
 func (r *ReduceMax) String() string {
 	return "reduceMax operator"
+}
+
+// reduceAlongAxes reduces the given axes of t (all axes when none are given), one axis at a time, each on a
+// (outer, axis, inner) view on which reduce reduces axis 1. The tensor library's own reduction over an inner
+// axis of a tensor with four or more dimensions returns wrong values or panics. The result has the reduced
+// axes removed.
+func reduceAlongAxes(t *tensor.Dense, axes []int, reduce func(*tensor.Dense) (*tensor.Dense, error)) (*tensor.Dense, error) {
+	shape := t.Shape().Clone()
+	t = t.ShallowClone()
+
+	if len(axes) == 0 {
+		axes = make([]int, len(shape))
+		for i := range axes {
+			axes[i] = i
+		}
+	}
+
+	for _, axis := range axes {
+		outer, inner := 1, 1
+		for _, dim := range shape[:axis] {
+			outer *= dim
+		}
+
+		for _, dim := range shape[axis+1:] {
+			inner *= dim
+		}
+
+		if err := t.Reshape(outer, shape[axis], inner); err != nil {
+			return nil, err
+		}
+
+		reduced, err := reduce(t)
+		if err != nil {
+			return nil, err
+		}
+
+		t = reduced
+		shape[axis] = 1
+	}
+
+	reducedAxes := make(map[int]bool, len(axes))
+	for _, axis := range axes {
+		reducedAxes[axis] = true
+	}
+
+	outShape := []int{}
+
+	for i, dim := range shape {
+		if !reducedAxes[i] {
+			outShape = append(outShape, dim)
+		}
+	}
+
+	if len(outShape) == 0 {
+		value, err := t.At(make([]int, t.Dims())...)
+		if err != nil {
+			return nil, err
+		}
+
+		return tensor.New(tensor.FromScalar(value)), nil
+	}
+
+	if err := t.Reshape(outShape...); err != nil {
+		return nil, err
+	}
+
+	return t, nil
 }
